@@ -29,16 +29,22 @@ def _run_history(n_nodes, outcomes):
         def request(self, method, path, **kw):
             used.append(self.i)
             ok = outcomes[len(used) - 1]
-            if not ok:
+            if ok == 'rpc':
+                from pytezos.rpc.node import RpcError
+                raise RpcError(path)
+            if not ok or ok == 'exc':
                 raise _Boom(path)
             return ('res', self.i)
 
     m.nodes = [Stub(i) for i in range(n_nodes)]
     for _ in outcomes:
+        before = len(used)
         try:
             m.request('GET', 'x')
-        except _Boom:
+        except Exception:   # noqa  the inner failure propagates to the caller; any other failure means no request was sent
             pass
+        if len(used) == before:
+            used.append(None)      # the client failed to send this request at all
     return used
 
 
@@ -50,23 +56,23 @@ def replay(case):
 
 
 def run_R(ck: Check):
-    L = 8 if ck.thorough() else 6
+    L = 7 if ck.thorough() else 5
     ck.bound('history_length', L)
     ck.bound('nodes', '1..4')
-    ck.rule('R: every success/error outcome sequence of length 1..L for 1..4 nodes; class = (n, first failing position, #errors)')
+    ck.rule('R: every success / RpcError / other-exception outcome sequence of length 1..L for 1..4 nodes; class = (n, first failing position, #errors)')
     for n in range(1, 5):
         for ln in range(1, L + 1):
-            for outcomes in itertools.product([True, False], repeat=ln):
+            for outcomes in itertools.product([True, 'rpc', 'exc'], repeat=ln):
                 used = _run_history(n, list(outcomes))
                 want = [i % n for i in range(ln)]
-                nerr = outcomes.count(False)
+                nerr = ln - outcomes.count(True)
                 ck.evaluate((n, ln, nerr), sample=dict(n_nodes=n, outcomes=list(outcomes)) if nerr == 1 and ln == 3 else None)
                 if used != want:
                     first = next(i for i, (a, b) in enumerate(zip(used, want)) if a != b)
                     ck.violation('RpcMultiNode.request::ensures.rotation',
                                  f'request #{first} went to node {used[first]} instead of {want[first]} (n={n}, outcomes={outcomes})',
                                  case=dict(n_nodes=n, outcomes=list(outcomes)), replay='props.C28:replay',
-                                 wclass='index-not-advanced-after-exception' if n > 1 and not outcomes[first - 1] else f'other n={n}')
+                                 wclass='index-not-advanced-after-exception' if n > 1 and outcomes[first - 1] is not True else f'other n={n}')
                     if sum(1 for v in ck.viol) > 3:
                         return
     ck.exhaustive = True
